@@ -164,7 +164,10 @@ def check_rules(case, out):
 
 @st.composite
 def scalar_cases(draw, nums=("frac",)):
-    c = draw(gen.curves(0, 4, 4, nums=nums, rational=False, dim=0))
+    if draw(st.integers(0, 5)) == 0:
+        c = draw(gen.curves(5, 9, 1, nums=nums, rational=False, dim=0))  # high degree, at most one interior knot
+    else:
+        c = draw(gen.curves(0, 4, 4, nums=nums, rational=False, dim=0))
     fam = draw(st.sampled_from(["default", "default"] + FAMILIES))
     p = c["p"]
     k = draw(st.integers(0, 3))
@@ -197,7 +200,11 @@ def check_scalar(case, out):
         floatrule = not exact
     else:
         g = (lambda u: u ** k) if k else None
-        got = Integrate.scalar(curve, g, METHODS[fam], case["nnodes"])
+        if k == 0 and not case.get("explicit_nnodes", True) and not (fam == "closed" and p == 0):
+            out.cls("default-nnodes")
+            got = Integrate.scalar(curve, None, METHODS[fam])  # default: degree+1 nodes, still exact
+        else:
+            got = Integrate.scalar(curve, g, METHODS[fam], case["nnodes"])
         floatrule = fam in ("cheb", "gauss") or not exact
     if lib.snapshot(curve) != snap:
         out.fail("operand-modified", fam, "Integrate.scalar changed the curve")
